@@ -86,6 +86,17 @@ def _add_shared(g: dict, rng: random.Random) -> list[str]:
                 g["nodes"].append({"kind": "fn", "name": nm + "_w", "params": [], "outs": [nm + "_wo"], "wait_for": [nm + "_done"]})
                 g["order"] += [len(g["nodes"]) - 2, len(g["nodes"]) - 1]
             shared.append("se")
+    if rng.random() < 0.4 and g["own_ext"]:
+        # closure twins: two cacheable nodes made by one file-defined factory (identical source text, different
+        # captured variable) reading the same input
+        src = rng.choice(g["own_ext"])
+        has_default = any(q["name"] == src and "default" in q for other in g["nodes"] for q in other.get("params", []))
+        if not has_default:
+            # graph A holds the closure made with key clA; the variant graph B holds its sibling made with key clB
+            # under the same node name and output name (see _variant_graph)
+            g["nodes"].append({"kind": "fn", "name": "cl", "fid": "clA", "closure": True, "params": [{"name": "a"}], "rename_inputs": {"a": src}, "outs": ["cl_o"], "cache": True})
+            g["order"].append(len(g["nodes"]) - 1)
+            shared.append("closure_twins")
     return shared
 
 
@@ -94,11 +105,16 @@ def _variant_graph(g: dict, variant: dict | None) -> dict:
     if not variant:
         return g
     g2 = copy.deepcopy(g)
-    for nd in g2["nodes"]:
-        if nd["name"] == variant["node"]:
-            nd.setdefault("emit", []).append("vsig")
-    g2["nodes"].append({"kind": "fn", "name": "vw", "params": [], "outs": ["vw_o"], "wait_for": ["vsig"]})
-    g2["order"] = list(g2["order"]) + [len(g2["nodes"]) - 1]
+    if variant.get("node"):
+        for nd in g2["nodes"]:
+            if nd["name"] == variant["node"]:
+                nd.setdefault("emit", []).append("vsig")
+        g2["nodes"].append({"kind": "fn", "name": "vw", "params": [], "outs": ["vw_o"], "wait_for": ["vsig"]})
+        g2["order"] = list(g2["order"]) + [len(g2["nodes"]) - 1]
+    if variant.get("closure"):
+        for nd in g2["nodes"]:
+            if nd.get("closure"):
+                nd["fid"] = "clB"  # the factory's other product: same source text, another captured value
     return g2
 
 
@@ -120,16 +136,20 @@ def gen_case(rng: random.Random, tier: str) -> dict:
                 "spurious": [rng.randrange(12)] if rng.random() < 0.2 else [],
             })
         variant = None
-        cands = [nd["name"] for nd in g["nodes"] if nd["kind"] == "fn" and nd.get("cache") and not nd.get("blk") and nd.get("fid", nd["name"]) == nd["name"] and nd["name"] + "c" not in [x["name"] for x in g["nodes"]]]
+        cands = [nd["name"] for nd in g["nodes"] if nd["kind"] == "fn" and nd.get("cache") and not nd.get("blk") and not nd.get("closure") and nd.get("fid", nd["name"]) == nd["name"] and nd["name"] + "c" not in [x["name"] for x in g["nodes"]]]
         if cands and rng.random() < 0.35:
             variant = {"node": rng.choice(cands)}
+        if "closure_twins" in shared:
+            variant = dict(variant or {}, closure=True)
+        if variant:
             for r_ in runs:
                 r_["gv"] = rng.randrange(2)
         return {"kind": "mem", "graph": g, "inputs": inp, "backend": backend, "runs": runs, "shared": shared, "variant": variant, "max_iterations": 12 if g["seeds"] else None}
-    g = gen.gen_program(rng, max_nodes=5, depth=1, feats={"gates": rng.random() < 0.4, "loops": False, "nested": rng.random() < 0.3, "maps": False, "signals": False, "edge_defaults": False})
+    g = gen.gen_program(rng, max_nodes=5, depth=1, feats={"gates": rng.random() < 0.4, "loops": False, "nested": rng.random() < 0.3, "maps": False, "signals": rng.random() < 0.4, "edge_defaults": False})
     n = _mark_cache(g, rng, 0.75)
     inp = gen.program_inputs(rng, g)
-    return {"kind": "disk", "graph": g, "inputs": inp, "fault_seed": rng.randrange(1 << 30), "async_cfg": gen.gen_async_cfg(rng, allow_hold=False), "tier": tier, "only": None, "real": False}
+    return {"kind": "disk", "graph": g, "inputs": inp, "fault_seed": rng.randrange(1 << 30), "async_cfg": gen.gen_async_cfg(rng, allow_hold=False), "tier": tier, "only": None, "real": False,
+            "same_instance": rng.random() < 0.4}  # one long-lived DiskCache object serves the warm run, the hit and the damaged lookups
 
 
 # ---------------------------------------------------------------- utilities
@@ -385,15 +405,20 @@ def _run_disk(doc: dict) -> dict:
         except OSError:
             return None
 
-    def run_once(tag: str, *, expect_exc: bool = False):
-        """One 'process lifetime': new DiskCache on the directory, one run."""
+    def run_once(tag: str, *, expect_exc: bool = False, keep: bool = False):
+        """One 'process lifetime': new DiskCache on the directory, one run (``keep``: the long-lived instance is reused)."""
         state["i"] += 1
         # same (plain) functions on both runners, so that entries are shared across runners
         mode = "async_syncfn" if (state["i"] % 4 == 0) else "sync"
         shim.loads_seen.clear()
         shim.loads_keys.clear()
         try:
-            cache = hc.DiskCache(cdir)
+            if keep and doc.get("same_instance") and state.get("cache") is not None:
+                cache = state["cache"]
+            else:
+                cache = hc.DiskCache(cdir)
+                if keep and doc.get("same_instance"):
+                    state["cache"] = cache
         except ProcessDeath:
             raise
         except BaseException as e:  # noqa: BLE001
@@ -414,7 +439,7 @@ def _run_disk(doc: dict) -> dict:
                 return "died"
             raise
         finally:
-            if real:
+            if real and not (keep and doc.get("same_instance")):
                 try:
                     cache._cache.close()
                 except Exception:  # noqa: BLE001
@@ -454,8 +479,8 @@ def _run_disk(doc: dict) -> dict:
                 res["discard"] = "reference_not_completed"
                 return res
             only = doc.get("only")
-            w = run_once("warm")
-            w = run_once("hit")
+            w = run_once("warm", keep=True)
+            w = run_once("hit", keep=True)
             if w not in (None, "died") and invoked_cacheable(w):
                 viol.append(("hit:function_invoked_again_on_clean_disk_hit", {"nodes": invoked_cacheable(w)}))
             if disk is not None:
@@ -500,8 +525,8 @@ def _run_disk(doc: dict) -> dict:
                 fired["disk_" + cls] = fired.get("disk_" + cls, 0) + 1
                 point = ["corrupt", entries.index(k), cls]
                 n0 = len(viol)
-                run_once(f"corrupt[{cls}]")
-                w2 = run_once(f"corrupt[{cls}]:after")
+                run_once(f"corrupt[{cls}]", keep=True)
+                w2 = run_once(f"corrupt[{cls}]:after", keep=True)
                 if w2 not in (None, "died") and invoked_cacheable(w2):
                     viol.append((f"corrupt[{cls}]:after:damaged_entry_not_repaired", {"nodes": invoked_cacheable(w2)}))
                 for i in range(n0, len(viol)):
